@@ -1,65 +1,1 @@
-//! Violations, replay files, known findings.
-
-use serde::{Deserialize, Serialize};
-use serde_json::Value;
-use std::path::PathBuf;
-
-#[derive(Clone, Debug, Serialize, Deserialize)]
-pub struct Violation {
-    /// oracle id, e.g. "X5-quiet-quit"
-    pub oracle: String,
-    /// stable signature used to match known findings (no run-specific numbers)
-    pub signature: String,
-    pub message: String,
-}
-
-impl Violation {
-    pub fn new(oracle: &str, signature: &str, message: String) -> Violation {
-        Violation { oracle: oracle.into(), signature: signature.into(), message }
-    }
-}
-
-pub fn verif_root() -> String {
-    std::env::var("VERIF_ROOT").unwrap_or_else(|_| "/verif".into())
-}
-
-pub fn replay_dir() -> PathBuf {
-    let p = PathBuf::from(std::env::var("VERIF_REPLAY_DIR").unwrap_or_else(|_| format!("{}/replays", verif_root())));
-    let _ = std::fs::create_dir_all(&p);
-    p
-}
-
-pub fn write_replay(property: &str, name: &str, body: &Value) -> PathBuf {
-    let path = replay_dir().join(format!("{}-{}.json", property, name));
-    let _ = std::fs::write(&path, serde_json::to_string_pretty(body).unwrap() + "\n");
-    path
-}
-
-#[derive(Clone, Debug, Default, Deserialize)]
-pub struct KnownFindings {
-    #[serde(default)]
-    pub findings: Vec<Finding>,
-    #[serde(default)]
-    pub fixed: Vec<Value>,
-}
-
-#[derive(Clone, Debug, Deserialize)]
-pub struct Finding {
-    pub property: String,
-    pub signature: String,
-    pub what: String,
-}
-
-pub fn load_known() -> KnownFindings {
-    let p = format!("{}/known_findings.json", verif_root());
-    match std::fs::read_to_string(&p) {
-        Ok(s) => serde_json::from_str(&s).unwrap_or_default(),
-        Err(_) => KnownFindings::default(),
-    }
-}
-
-impl KnownFindings {
-    pub fn matches(&self, property: &str, v: &Violation) -> Option<&Finding> {
-        self.findings.iter().find(|f| f.property == property && f.signature == v.signature)
-    }
-}
+pub use simcore::report::*;
